@@ -365,7 +365,8 @@ def record_call(doc, call):
                 out = run_quiet(real_dumps, doc, a, form, call.get('_explicit', False))
                 ev['res'] = {'ok': True, 'grid': grid_of(out), 'exc': ''}
             except Exception as ex:  # noqa
-                ev['res'] = {'ok': False, 'grid': [], 'exc': type(ex).__name__}
+                # 'rejected with ValueError': a subclass of ValueError IS a ValueError (the class name itself is not part of the property)
+                ev['res'] = {'ok': False, 'grid': [], 'exc': 'ValueError' if isinstance(ex, ValueError) else type(ex).__name__}
         elif op == 'listing':
             ev['res'] = [[t.category.name, cps(t.encoding)] for t in _keep(doc.get_all_tokens(filter_by_categories=cats()))]
         elif op == 'unique':
